@@ -162,7 +162,8 @@ class PEval:
             v = self.val(f, a, env)
             if v is not None:
                 cenv[p['n']] = v
-                continue
+                if '*' not in (p.get('t') or ''):
+                    continue            # a pointer with a known value still carries the facts about what it points to
             au = f.unwrap(a)
             if au['k'] == 'UnaryOperator' and au['op'] == '&':
                 base = f.s(au['kids'][0]) + '.'
